@@ -364,7 +364,17 @@ pub fn run_group(seed: u64, gi: u64, base: &InstSpec, tier: &FTier, st: &mut Sta
         return out;
     }
     // a reference run stopped by the call budget made one aborted call beyond it
-    let truncated = r.ended_by == EndedBy::Budget;
+    // (also when an Err of the solver itself came first and the later polls ran into the budget)
+    let truncated = r.ended_by == EndedBy::Budget || r.calls > tier.ref_budget;
+    // derivative calls made up to the poll at which the reference run first ended: what
+    // happens after that depends on how long the consumer keeps polling
+    let calls_to_first_end = r
+        .poll_kinds
+        .iter()
+        .position(|k| *k != 0)
+        .and_then(|i| r.poll_calls.get(i))
+        .map(|c| *c as u64)
+        .unwrap_or(r.calls);
     let n_ref = if truncated { r.calls.saturating_sub(1).min(tier.ref_budget) } else { r.calls };
     let (ks, exhaustive) = choose_ks(tier, r, n_ref, truncated, &mut rng);
     if exhaustive {
@@ -396,7 +406,10 @@ pub fn run_group(seed: u64, gi: u64, base: &InstSpec, tier: &FTier, st: &mut Sta
                 drives.push(Drive::Nth0);
             }
             if (k + gi) % 7 == 4 {
-                drives.push(Drive::Fold);
+                drives.push(Drive::Walk(((k / 7 + gi) % 5) as u8));
+            }
+            if (k + gi) % 11 == 6 {
+                drives.push(Drive::PollThenWalk(((k / 11 + gi) % 5) as u8));
             }
             if (k + gi) % 4 == 2 {
                 drives.push(Drive::PollThenCollect);
@@ -479,7 +492,7 @@ pub fn run_group(seed: u64, gi: u64, base: &InstSpec, tier: &FTier, st: &mut Sta
             let spec = RunSpec { instances: vec![inst], sched_seed: 0, phased: false, solo_baselines: true };
             let res = execute(&spec, &[budget], &opts);
             st.account_run((MODE_FGRID, gi, sub), &spec, &res.insts, res.fp);
-            if drive == Drive::Poll && res.violation.is_none() && res.insts[0].first_fired_call != first {
+            if drive == Drive::Poll && res.violation.is_none() && first.map(|f| f <= calls_to_first_end).unwrap_or(false) && res.insts[0].first_fired_call != first {
                 out.harness_errors.push(format!(
                     "fault-grid group {} non-finite plan: first fired at {:?}, the reference run says {:?} (simulator not deterministic?)",
                     gi, res.insts[0].first_fired_call, first
@@ -519,7 +532,7 @@ pub fn run_group(seed: u64, gi: u64, base: &InstSpec, tier: &FTier, st: &mut Sta
             FaultPlan::Scattered(ks2)
         };
         sub += 1;
-        let drive = *rng.pick(&[Drive::Poll, Drive::CollectVec, Drive::ByRefCollect, Drive::TakeBursts(2), Drive::Nth0, Drive::Fold, Drive::PollThenCollect, Drive::NthSkip(2)]);
+        let drive = *rng.pick(&[Drive::Poll, Drive::CollectVec, Drive::ByRefCollect, Drive::TakeBursts(2), Drive::Nth0, Drive::Walk(0), Drive::Walk(1), Drive::Walk(2), Drive::Walk(3), Drive::Walk(4), Drive::PollThenWalk(1), Drive::PollThenCollect, Drive::NthSkip(2)]);
         let inst = InstSpec {
             plan,
             payload: *rng.pick(&PAYLOADS),
@@ -532,7 +545,7 @@ pub fn run_group(seed: u64, gi: u64, base: &InstSpec, tier: &FTier, st: &mut Sta
         st.account_run((MODE_FGRID, gi, sub), &spec, &res.insts, res.fp);
         // self-check of the simulator: the run is the reference run up to the first call whose
         // arguments are outside the domain, so that is where the plan must fire first
-        if let (Some(first), None) = (expect_first, &res.violation) {
+        if let (Some(first), None, true) = (expect_first, &res.violation, drive == Drive::Poll && expect_first.map(|f| f <= calls_to_first_end).unwrap_or(false)) {
             if res.insts[0].first_fired_call != Some(first) {
                 out.harness_errors.push(format!(
                     "fault-grid group {} domain plan: first fired at {:?}, the reference run says call {} (simulator not deterministic?)",
